@@ -128,6 +128,7 @@ type Genesis struct {
 	Vals         []GVal
 	PoaGenesis   []byte // optional: raw x/poa genesis JSON (genesis round-trip checks)
 	GovAdmin     bool   // the PoA admin is the x/gov account (the default configuration): no environment override
+	ForeignDel   bool   // probes only: the ordinary account holds a delegation of one unit to the first genesis validator (a PoS-style genesis)
 }
 
 // Node is one running SimApp instance.
@@ -242,8 +243,15 @@ func NewNode(w *World, g Genesis) (*Node, []abci.ValidatorUpdate, error) {
 			Commission:        stakingtypes.NewCommission(sdkmath.LegacyNewDecWithPrec(2, 1), sdkmath.LegacyNewDecWithPrec(5, 1), sdkmath.LegacyNewDecWithPrec(1, 1)),
 			MinSelfDelegation: sdkmath.OneInt(),
 		}
-		vals = append(vals, v)
 		dels = append(dels, stakingtypes.NewDelegation(o.Addr.String(), o.Val.String(), sdkmath.LegacyNewDecFromInt(tok)))
+		if g.ForeignDel && len(vals) == 0 {
+			extra := sdkmath.NewInt(1_000_000)
+			v.Tokens = v.Tokens.Add(extra)
+			v.DelegatorShares = v.DelegatorShares.Add(sdkmath.LegacyNewDecFromInt(extra))
+			dels = append(dels, stakingtypes.NewDelegation(w.User.Addr.String(), o.Val.String(), sdkmath.LegacyNewDecFromInt(extra)))
+			total = total.Add(extra)
+		}
+		vals = append(vals, v)
 		total = total.Add(tok)
 		cons := sdk.ConsAddress(pk.Address())
 		infos = append(infos, slashingtypes.SigningInfo{
